@@ -28,10 +28,17 @@ struct ClosureSpec {
     /// ghost text inserted at the start of the closure body (proof blocks only)
     #[serde(default)]
     prologue: String,
+    /// R15 call-out: the closure's body is replaced by this call of its lifted twin (a `lifted` unit that verifies the
+    /// same bytes as a method); the enclosing function is then checked against the twin's contract, not its body
+    #[serde(default)]
+    call_out: String,
 }
 
 #[derive(Deserialize, Default, Clone)]
 struct LoopSpec {
+    /// ghost text inserted at the end of the loop body, before the index is advanced (R13 shapes that support it)
+    #[serde(default)]
+    body_epilogue: String,
     #[serde(default)]
     invariant: Vec<String>,
     #[serde(default)]
@@ -98,6 +105,14 @@ struct FnSpec {
     /// R13: loop contracts for desugared iterator chains `xs.iter().enumerate().map(F).fold(init, G)`, by ordinal
     #[serde(default)]
     iter_loops: BTreeMap<String, LoopSpec>,
+    /// R12 generic: method name -> prelude helper taking (receiver, argument)
+    #[serde(default)]
+    method_helpers: BTreeMap<String, String>,
+    /// R15 call-out for a statement tail (see extract_fn)
+    #[serde(default)]
+    tail_from: String,
+    #[serde(default)]
+    tail_call: String,
 }
 
 #[derive(Deserialize, Clone)]
@@ -507,6 +522,11 @@ impl<'a> Rw<'a> {
                     }
                 }
             }
+            if let syn::Expr::MethodCall(m) = &*mc.receiver {
+                if m.method == "filter_map" && m.args.len() == 1 {
+                    return self.try_map_enum_filter_map_unzip(mc, m);
+                }
+            }
             return self.try_enum_filter_enum_map_unzip(mc);
         }
         if mc.method == "collect" && mc.args.is_empty() {
@@ -681,6 +701,39 @@ impl<'a> Rw<'a> {
     }
 
     /// R13: `X.iter().enumerate().filter_map(F).collect()` -> `for i in 0..X.len() { if let Some(v) = F((i, &X[i])) { out.push(v) } }`
+    /// R13: `X.iter().map(F).enumerate().filter_map(G).unzip()` -> `for i in 0..X.len() { if let Some(t) = G((i, F(&X[i]))) { a.push(t.0); b.push(t.1) } }`;
+    /// F and G stay verbatim closures (their contracts are R7 closure contracts).  `acc_ty` = "A; B": element types.
+    fn try_map_enum_filter_map_unzip(&mut self, mc: &syn::ExprMethodCall, fm: &syn::ExprMethodCall) -> bool {
+        let en = match &*fm.receiver { syn::Expr::MethodCall(m) if m.method == "enumerate" && m.args.is_empty() => m, _ => return false };
+        let map = match &*en.receiver { syn::Expr::MethodCall(m) if m.method == "map" && m.args.len() == 1 => m, _ => return false };
+        let it = match &*map.receiver { syn::Expr::MethodCall(m) if m.method == "iter" && m.args.is_empty() => m, _ => return false };
+        let k = self.iter_chain_idx;
+        let ls = match self.spec.iter_loops.get(&k.to_string()).cloned() { Some(l) => l, None => return false };
+        self.iter_chain_idx += 1;
+        let x = &*it.receiver;
+        let (xs, xe) = br(x.span());
+        let (fs, fe) = br(map.args[0].span());
+        let (gs, ge) = br(fm.args[0].span());
+        let (_, end) = br(mc.span());
+        let mut inv = String::new();
+        if !ls.invariant.is_empty() { inv.push_str(&format!(" invariant {},", ls.invariant.join(", "))); }
+        let dec = if ls.decreases.is_empty() { "__it.len() - __i".to_string() } else { ls.decreases.clone() };
+        let (ta, tb) = match ls.acc_ty.split_once(';') {
+            Some((a, b)) => (format!(": Vec<{}>", a.trim()), format!(": Vec<{}>", b.trim())),
+            None => (String::new(), String::new()),
+        };
+        self.insert_open(xs, "{ let __it = &".to_string());
+        self.replace_range(xe, fs, "; let __f = ".to_string(), "R13-map-enum-filter-map-unzip");
+        self.replace_range(fe, gs, "; let __g = ".to_string(), "R13-map-enum-filter-map-unzip");
+        self.replace_range(ge, end, format!(
+            "; let mut __a{} = Vec::new(); let mut __b{} = Vec::new(); let mut __i: usize = 0; while __i < __it.len(){} decreases {}, {{ {} let __o = __g((__i, __f(&__it[__i]))); match __o {{ Some(__t) => {{ __a.push(__t.0); __b.push(__t.1); }} None => {{}} }} {} __i += 1; }} {} (__a, __b) }}",
+            ta, tb, inv, dec, ls.body_prologue, ls.body_epilogue, ls.after), "R13-map-enum-filter-map-unzip");
+        self.visit_expr(x);
+        self.visit_expr(&map.args[0]);
+        self.visit_expr(&fm.args[0]);
+        true
+    }
+
     fn try_enum_filter_map_collect(&mut self, mc: &syn::ExprMethodCall) -> bool {
         let fm = match &*mc.receiver { syn::Expr::MethodCall(m) if m.method == "filter_map" && m.args.len() == 1 => m, _ => return false };
         let en = match &*fm.receiver { syn::Expr::MethodCall(m) if m.method == "enumerate" && m.args.is_empty() => m, _ => return false };
@@ -1281,6 +1334,7 @@ impl<'a, 'ast> Visit<'ast> for Rw<'a> {
             .or_else(|| if occ == 0 { self.spec.closures.get(&pkey) } else { None })
             .cloned();
         let mut prologue = String::new();
+        let call_out = spec.as_ref().map(|c| c.call_out.clone()).unwrap_or_default();
         if let Some(cs) = spec {
             let k: String = if cs.id.is_empty() { format!("c{}", k) } else { cs.id.clone() };
             if cs.params.len() != c.inputs.len() {
@@ -1445,6 +1499,10 @@ impl<'a, 'ast> Visit<'ast> for Rw<'a> {
                 }
             }
         }
+        if !call_out.is_empty() {
+            self.replace(c.body.span(), call_out, "R15-call-out");
+            return;
+        }
         let saved = self.in_tail_loop_depth;
         self.in_tail_loop_depth = 0;
         let mut done = false;
@@ -1551,6 +1609,20 @@ impl<'a, 'ast> Visit<'ast> for Rw<'a> {
             }
         }
         let name = mc.method.to_string();
+        // R12 (generic form): `RECV.m(ARG)` -> `helper(RECV, ARG)` for the one-argument methods the plan maps to a
+        // prelude helper (std methods Verus has no specification for); RECV and ARG stay verbatim
+        if let Some(h) = self.spec.method_helpers.get(&name).cloned() {
+            if mc.args.len() == 1 {
+                let (ms, _) = br(mc.span());
+                let (_, re) = br(mc.receiver.span());
+                let (as_, _) = br(mc.args[0].span());
+                self.insert_open(ms, format!("{}(", h));
+                self.replace_range(re, as_, ", ".to_string(), "R12-method-helper");
+                self.visit_expr(&mc.receiver);
+                self.visit_expr(&mc.args[0]);
+                return;
+            }
+        }
         if let Some(idx) = self.optargs.get(&name) {
             for &i in idx {
                 if let Some(a) = mc.args.iter().nth(i) {
@@ -1823,7 +1895,29 @@ fn extract_fn(
         }
         // visit body statements; the tail loop gets depth 1
         let n = block.stmts.len();
+        // R15 call-out for a statement tail: the statements from the one that starts with `tail_from` to the end of the
+        // body are replaced by `tail_call` (a call of their lifted twin, verified from the same bytes)
+        let mut cut: Option<usize> = None;
+        if !spec.tail_from.is_empty() {
+            for (i, st) in block.stmts.iter().enumerate() {
+                let (ss, _) = br(st.span());
+                if src.text[ss..].starts_with(spec.tail_from.as_str()) {
+                    cut = Some(i);
+                    let (_, be) = br(block.span());
+                    rw.replace_range(ss, be - 1, format!("{}\n", spec.tail_call), "R15-call-out");
+                    break;
+                }
+            }
+            if cut.is_none() {
+                rw.errors.push(format!("lost anchor: no statement of {} starts with `{}`", item_label, spec.tail_from));
+            }
+        }
         for (i, st) in block.stmts.iter().enumerate() {
+            if let Some(c) = cut {
+                if i >= c {
+                    break;
+                }
+            }
             if i + 1 == n && rw.tail_loop_break_to_return {
                 rw.in_tail_loop_depth = 0;
                 if let syn::Stmt::Expr(syn::Expr::Loop(l), None) = st {
